@@ -176,7 +176,7 @@ class ProvXMLSerializer(Serializer):
                 if (
                     (
                         force_types
-                        or type(value) in ALWAYS_CHECK
+                        or isinstance(value, ALWAYS_CHECK)
                         or attr in [PROV_TYPE, PROV_LOCATION, PROV_VALUE]
                     )
                     and _ns_xsi("type") not in subelem.attrib
